@@ -87,7 +87,7 @@ def scenarios(ctx):
             init = stage_prefix(persist_loss) + (('setid', 0, id0),)
             out.append(Std('wrap-%d%s' % (id0, '-resumed' if persist_loss else ''), profile='pubsub', init=init,
                            connects=[(False, 0, 4)], pub_qos=(1, 2), closing=False,
-                           budgets=dict(pub=8 if not q else 7, sub=1, unsub=1, ack=1 if q else 2)))
+                           budgets=dict(pub=8 if not q else 4, sub=1, unsub=1, ack=1 if q else 2)))
     out.append(Std('two-addresses', profile='pubsub', naddr=2, closing=False,
                    init=(('connect', 0, True, 0, 4), ('connack', 0, 0, False), ('connect', 1, True, 0, 4),
                          ('connack', 1, 0, False), ('pub', 0, 1), ('pub', 0, 2), ('sub', 0, 'str'), ('pub', 1, 1),
@@ -95,7 +95,7 @@ def scenarios(ctx):
                    pub_qos=(1,), budgets=dict(pub=4 if q else 5, sub=1, unsub=1, ack=1 if q else 2)))
     out.append(Std('from-zero', profile='pubsub', init=(('connect', 0, True, 0, 4), ('connack', 0, 0, False), ('setwin', 0, 2)),
                    closing=False, pub_qos=(0, 1, 2),
-                   budgets=dict(pub=3, sub=1, unsub=1, ack=2, dack=1, tick=1)))
+                   budgets=dict(pub=3 if not q else 2, sub=1, unsub=1, ack=2 if not q else 1, dack=1, tick=1)))
     return out
 
 
